@@ -35,6 +35,7 @@ class _Runner(_Processor):
         self.max_tasks = max_tasks
         self._tasks_concurrency_limit = tasks_concurrency_limit
         self._limiter = asyncio.Semaphore(tasks_concurrency_limit)
+        self._tasks_started = 0
         self._tasks_processed = 0
 
         self._health_check_server = health_check_server
@@ -100,6 +101,12 @@ class _Runner(_Processor):
                 await consumer.unpause()
             else:
                 await self._limiter.acquire()
+            if self._tasks_started >= self.max_tasks:
+                # messages limit is exhausted: give the message back and stop consuming
+                self._limiter.release()
+                await self._conn.message_broker.reject(key)
+                return
+            self._tasks_started += 1
             t = asyncio.create_task(self._process_with_event(actor, key, payload, params))
             self._tasks.add(t)
             t.add_done_callback(self._task_callback)
